@@ -37,7 +37,7 @@ def gen_plan(rng, opts=None):
         elif r < 0.9:
             ops.append(["purge", h, f"t{rng.randrange(max(1, tag))}"])
         else:
-            ops.append(["wait", rng.choice([1, 100, 1000])])
+            ops.append(["wait", rng.choice([1, 20, 50])])
     net = dict(lat_lo=50_000, lat_hi=rng.choice([50_000, 2_000_000, 300_000_000]), drop=0, dup=0, max_consec=None)
     if o["lossy"]:
         net.update(drop=rng.choice([0, 5, 15, 30, 45]), dup=rng.choice([0, 5, 15, 30]), max_consec=rng.choice([2, 4, None]))
@@ -265,7 +265,13 @@ def _run_traffic(plan, ch, want_log):
                 elif op[0] == "purge":
                     b.purge(f"h{op[1]}", DatasetId(op[2], "0"))
                 elif op[0] == "wait":
-                    K.sleep(op[1] * 1_000_000)
+                    # the real controller is (nearly) always inside recv_events, which is also where acks are sent and retries
+                    # happen; a scripted controller that sleeps for long starves its peers' retry budgets.  So: wait for an event
+                    # if one is outstanding, else pause only briefly
+                    if got < expected:
+                        got += len(b.recv_events())
+                    else:
+                        K.sleep(min(op[1], 50) * 1_000_000)
                 pending_batch += 1
                 if pending_batch >= knobs["batch"] and got < expected:
                     got += len(b.recv_events())
